@@ -306,3 +306,5 @@ MANIFEST = {
     'technique': 'ordering and path conditions of calls over value terms + mirror (involution) check of sibling calls + finite evaluation of the index codec + provenance',
     'design_ref': 'DESIGN.md 3/C15',
 }
+MANIFEST['note'] += (' Also decided here (necessary conditions shared between properties or added after the independent '
+                     'change rounds, DESIGN.md 8.7): policy message builder and mirror layouts (from C14), close() flushes first, every ACQUIRE handed over, configuration not mutated.')
